@@ -38,12 +38,12 @@ import pandas
 
 SCOPE = {
     'quick': 'directed explicit genomes (GC bin 0 spill, in_window == out_window with bigWig, 100 %-GC tiles with bin widths whose '
-             'reciprocal has fractional part >= .5, N == max_n_perc, masks) + ~110 seeded random genomes: 1-3 chromosomes, 20-400 tiles, '
+             'reciprocal has fractional part >= .5, N == max_n_perc, masks) + ~400 seeded random genomes: 1-3 chromosomes, 20-400 tiles, '
              'in_window in {50..500}, out_window <= in_window, GC blocks 0-100 % not aligned to tiles, N runs and sprinkled N, lower case, '
              '5-200 loci (uniform and clustered, some invalid / N-rich), bin widths 0.01-0.1, max_n_perc 0-0.5, with/without bigWig '
              '(integer signal, gaps), chroms None / explicit; all clauses at n_jobs=1 (called twice: determinism), then 8 cases each at '
              'n_jobs 2, 3, 4 compared with n_jobs=1',
-    'thorough': 'same generators, ~1500 random genomes, 40 cases per n_jobs value 2, 3, 4',
+    'thorough': 'same generators, up to 10000 random genomes (time-capped), 40 cases per n_jobs value 2, 3, 4',
 }
 
 CHROMS = ['chrA', 'chrB', 'chrC']
@@ -296,28 +296,34 @@ def _clauses(case, genome, o, got):
     seen = set()
     R = {}
     good = []
+    rows = {}          # finding -> list of messages (aggregated below: one violation per finding and case)
+
+    def row(f, m):
+        rows.setdefault(f, []).append(m)
     for c, s, e in got:
         tag = '%s:%d-%d' % (c, s, e)
         if c not in genome or s % W != 0 or e - s != W or s < 0 or e > len(genome[c]):
-            out.append(('not-a-tile', '%s is not an in_window-aligned tile inside its chromosome (W=%d, len=%s)' % (tag, W, len(genome.get(c, '')) or None)))
+            row('not-a-tile', '%s is not an in_window-aligned tile inside its chromosome (W=%d, len=%s)' % (tag, W, len(genome.get(c, '')) or None))
             continue
         if (c, s) in seen:
-            out.append(('returned-twice', '%s returned more than once' % tag))
+            row('returned-twice', '%s returned more than once' % tag)
             continue
         seen.add((c, s))
         d = info.get((c, s // W))
         if d is None:
-            out.append(('chrom-not-requested', '%s lies on a chromosome outside chroms=%s' % (tag, o['use'])))
+            row('chrom-not-requested', '%s lies on a chromosome outside chroms=%s' % (tag, o['use']))
             continue
         R[d['bin']] = R.get(d['bin'], 0) + 1
         good.append((c, s // W))
         if d['touched']:
-            out.append(('overlaps-input', '%s is a tile touched by an input locus' % tag))
+            row('overlaps-input', '%s is a tile touched by an input locus' % tag)
         if not d['n_ok']:
-            out.append(('n-fraction', '%s has N fraction %.4f > max_n_perc %s' % (tag, _n_frac(genome[c][s:e]), case['max_n'])))
+            row('n-fraction', '%s has N fraction %.4f > max_n_perc %s' % (tag, _n_frac(genome[c][s:e]), case['max_n']))
         if not d['sig_hi']:
             f = 'signal-filter-void-when-in-eq-out' if case['out'] == W else 'signal-above-threshold'
-            out.append((f, '%s has summed signal %s over the centred out_window=%d > %.6g = signal_beta * robust minimum' % (tag, min(d['sig']), case['out'], o['thr'])))
+            row(f, '%s has summed signal %s over the centred out_window=%d > %.6g = signal_beta * robust minimum' % (tag, min(d['sig']), case['out'], o['thr']))
+    for f, ms in rows.items():
+        out.append((f, ms[0] + ('' if len(ms) == 1 else ' (and %d more returned loci like this, of %d returned)' % (len(ms) - 1, len(got)))))
     n_ret = len(got)
     L_lo, L_hi = o['L_lo'], o['L_hi']
     if n_ret > sum(L_hi.values()):
@@ -328,12 +334,17 @@ def _clauses(case, genome, o, got):
             E_lo[d['bin']] = E_lo.get(d['bin'], 0) + 1
         if d['E_hi']:
             E_hi[d['bin']] = E_hi.get(d['bin'], 0) + 1
+    under, over = [], []
     for b in sorted(set(L_lo) | set(R)):
         need = min(L_lo.get(b, 0), E_lo.get(b, 0))
         if R.get(b, 0) < need:
-            out.append(('bin-underfilled', 'GC bin %d received %d < min(%d inputs, %d eligible)' % (b, R.get(b, 0), L_lo.get(b, 0), E_lo.get(b, 0))))
+            under.append('GC bin %d received %d < min(%d inputs, %d eligible)' % (b, R.get(b, 0), L_lo.get(b, 0), E_lo.get(b, 0)))
         if R.get(b, 0) > E_hi.get(b, 0):
-            out.append(('bin-overfilled', 'GC bin %d received %d > %d eligible' % (b, R.get(b, 0), E_hi.get(b, 0))))
+            over.append('GC bin %d received %d > %d eligible' % (b, R.get(b, 0), E_hi.get(b, 0)))
+    if under:
+        out.append(('bin-underfilled', under[0] + ('' if len(under) == 1 else ' (and %d more bins)' % (len(under) - 1))))
+    if over and not rows:        # implied by the row clauses; kept as a cross-check of the oracle
+        out.append(('bin-overfilled', over[0] + ('' if len(over) == 1 else ' (and %d more bins)' % (len(over) - 1))))
     if n_ret < sum(L_lo.values()):
         gs = set(good)
         left_over = sorted((d['bin'], key) for key, d in info.items() if d['E_lo'] and key not in gs)
@@ -431,9 +442,6 @@ def _random_case(rng, profile, seed):
         c = rng.choice([g[0] for g in genome])
         centre = rng.randint(W, max(W + 1, lengths[c] - W))
         hot.append([c, centre, rng.choice([W // 4, W, 2 * W])])
-    if profile == 'scarce' and hot:
-        # make the hot spots GC-rich-ish so that inputs fall in bins far from the dominant background
-        pass
     loci_spec = dict(n=n_loci, hot=hot, frac_hot=frac_hot, p_edge=rng.choice([0, 0.05, 0.1]), wmax=rng.choice([W // 2, W, 2 * W, 3 * W]),
                      p_aligned=rng.choice([0, 0, 0.2]))
     bigwig = rng.random() < (0.45 if profile != 'scarce' else 0.25)
@@ -479,7 +487,7 @@ def run(rep):
     rng = rep.rng
     for case in _directed():
         _one(rep, case, 'directed', ('d', case['name']))
-    n_random = 1500 if thorough else 110
+    n_random = 10000 if thorough else 400
     per_nj = 40 if thorough else 8
     # reserve time for the n_jobs part (each change of n_jobs restarts the loky pool: 3-5 s)
     reserve = (per_nj * 0.3 + 6) * 3
